@@ -47,10 +47,21 @@ impl StructParser {
     /// Check if an attribute indicates the type should be included
     fn should_include(&self, attr: &Attribute) -> bool {
         if let Ok(meta_list) = attr.meta.require_list() {
-            if meta_list.path.is_ident("derive") {
+            // #[derive(..)], or #[cfg_attr(feature = "..", derive(..))]
+            if meta_list.path.is_ident("derive") || meta_list.path.is_ident("cfg_attr") {
                 let tokens_str = meta_list.to_token_stream().to_string();
-
-                tokens_str.contains("Serialize") || tokens_str.contains("Deserialize")
+                // the derive macros of serde themselves (`Serialize`, `serde::Serialize`), not
+                // a longer name such as BorshSerialize or Serialize_repr
+                let is_ident = |c: char| c.is_alphanumeric() || c == '_';
+                ["Serialize", "Deserialize"].iter().any(|name| {
+                    tokens_str.match_indices(name).any(|(pos, _)| {
+                        !tokens_str[..pos].chars().next_back().is_some_and(is_ident)
+                            && !tokens_str[pos + name.len()..]
+                                .chars()
+                                .next()
+                                .is_some_and(is_ident)
+                    })
+                }) && (meta_list.path.is_ident("derive") || tokens_str.contains("derive"))
             } else {
                 false
             }
